@@ -155,3 +155,62 @@ func c02SecondReplay(c *core.Ctx, payload json.RawMessage) bool {
 	c02SecondOne(c, core.Scratch("c02second-replay"), k)
 	return true
 }
+
+// Family extensions: the format of a file is chosen by its extension both when csvq writes (--out without --format,
+// CREATE TABLE) and when it loads by name; the two must agree for every spelling of the extension.
+func init() {
+	core.Extend("C02", "family extensions: 5 formats x 4 letter-case spellings of the extension x 2 ways of writing (--out without --format, CREATE TABLE AS + COMMIT) on the real CLI; oracle: the file loads back by name with the header and the values written", c02ExtRun)
+}
+
+type c02ExtCase struct {
+	Family string `json:"family"`
+	File   string `json:"file"`
+	Via    string `json:"written_by"`
+}
+
+func c02ExtOne(c *core.Ctx, dir string, k c02ExtCase) {
+	drv.ClearDir(dir)
+	var w procx.Outcome
+	if k.Via == "out" {
+		w = procx.Exec(procx.Run{Dir: dir, Args: []string{"-q", "-o", k.File, "SELECT 1 AS a, 'x y' AS b UNION ALL SELECT 2, 'z'"}})
+	} else {
+		w = procx.Exec(procx.Run{Dir: dir, Args: []string{"-q", "CREATE TABLE `" + k.File + "` (a, b) AS SELECT 1, 'x y' UNION ALL SELECT 2, 'z'; COMMIT;"}})
+	}
+	if w.Exit != 0 {
+		c.Observe("extension_cases_refused", k.File+": "+strings.Join(strings.Fields(w.Stderr), " "))
+		return
+	}
+	c.Eval("ext|"+k.File+"|"+k.Via, true)
+	written := drv.DirSnapshot(dir)[k.File]
+	rb := procx.Exec(procx.Run{Dir: dir, Args: []string{"-f", "CSV", "SELECT * FROM `" + k.File + "`"}})
+	want := "a,b\n1,x y\n2,z\n"
+	if rb.Exit != 0 || rb.Stdout != want {
+		c.Violate("extensions:file-written-by-extension-loads-back-differently:"+k.Via, fmt.Sprintf("%s written through %s holds %q; loaded by name it reads %q (exit %d %s), written was %q", k.File, k.Via, clip(written), rb.Stdout, rb.Exit, strings.TrimSpace(rb.Stderr), want), k)
+	}
+}
+
+func c02ExtRun(c *core.Ctx) {
+	dir := core.Scratch("c02ext")
+	var idx int64
+	for _, ext := range []string{"csv", "tsv", "ltsv", "json", "jsonl"} {
+		for _, sp := range []string{ext, strings.ToUpper(ext), strings.ToUpper(ext[:1]) + ext[1:], ext[:1] + strings.ToUpper(ext[1:])} {
+			for _, via := range []string{"out", "create"} {
+				idx++
+				if !c.Mine(idx) {
+					continue
+				}
+				c02ExtOne(c, dir, c02ExtCase{"extensions", "Out." + sp, via})
+			}
+		}
+	}
+}
+
+func c02ExtReplay(c *core.Ctx, payload json.RawMessage) bool {
+	var k c02ExtCase
+	if json.Unmarshal(payload, &k) != nil || k.Family != "extensions" {
+		return false
+	}
+	fmt.Printf("replaying family extensions: %+v\n", k)
+	c02ExtOne(c, core.Scratch("c02ext-replay"), k)
+	return true
+}
